@@ -476,6 +476,7 @@ type c02End struct {
 	rDone  chan struct{}
 	gotAll chan struct{}
 	bad    atomic.Pointer[c02Mismatch]
+	badCh  chan struct{}
 	onGot  *c02Trigger
 	onSent *c02Trigger
 	wStart chan struct{}
@@ -516,6 +517,9 @@ func (e *c02End) reader() {
 				end := got + int64(n)
 				if end > int64(len(e.expect)) || !bytes.Equal(buf[:n], e.expect[got:end]) {
 					e.bad.Store(c02Diagnose(e.expect, got, buf[:n]))
+					if e.badCh != nil {
+						close(e.badCh)
+					}
 				}
 			}
 			got += int64(n)
@@ -577,14 +581,20 @@ func c02Diagnose(expect []byte, off int64, chunk []byte) *c02Mismatch {
 // goroutine-state classifier for "the bridge will never make progress again"
 // ---------------------------------------------------------------------------
 
-func c02BridgeGoroutines(b *Bridge) (sig string, parkedIO int, other []string) {
-	ptr := fmt.Sprintf("(%p", b)
+func c02Tagged(tags []string) (sig string, parkedIO int, other []string) {
 	var lines []string
 	for _, g := range vk.Goroutines() {
-		if !strings.Contains(g.Stack, "tunnel.(*Bridge).") || !strings.Contains(g.Stack, ptr) {
+		st := g.Stack
+		hit := false
+		for _, tg := range tags {
+			if strings.Contains(st, tg) {
+				hit = true
+				break
+			}
+		}
+		if !hit {
 			continue
 		}
-		st := g.Stack
 		kind := ""
 		switch {
 		case strings.Contains(st, "rate.(*Limiter)"), strings.Contains(st, "time.Sleep"):
@@ -609,14 +619,34 @@ func c02BridgeGoroutines(b *Bridge) (sig string, parkedIO int, other []string) {
 	return strings.Join(lines, ","), parkedIO, other
 }
 
-// c02Parked reports whether the bridge's goroutines are all parked in transport reads
-// (or waiting for those) in three consecutive dumps: a state that cannot change without
-// new external input.
-func c02Parked(b *Bridge) (bool, string) {
+func c02BridgeTag(b *Bridge) string { return fmt.Sprintf("tunnel.(*Bridge).CopyWithControl(%p", b) }
+func c02StartTag(b *Bridge) string  { return fmt.Sprintf("tunnel.(*Bridge).Start(%p", b) }
+func c02ReaderTag(e *c02End) string { return fmt.Sprintf("tunnel.(*c02End).reader(%p", e) }
+
+// c02Parked reports whether every goroutine of the bridge (and of the given harness
+// readers, which must have nothing left to consume) is parked in a transport read (or
+// waiting for such a goroutine) in three consecutive dumps, with no progress of the
+// readers in between: a state that cannot change without new external input.
+func c02Parked(b *Bridge, readers ...*c02End) (bool, string) {
+	tags := []string{c02BridgeTag(b), c02StartTag(b)}
+	for _, e := range readers {
+		tags = append(tags, c02ReaderTag(e))
+	}
+	progress := func() (n int64) {
+		for _, e := range readers {
+			n += e.got.Load()
+		}
+		return
+	}
 	var prev string
+	p0 := progress()
 	for i := 0; i < 3; i++ {
-		sig, io, other := c02BridgeGoroutines(b)
+		sig, io, other := c02Tagged(tags)
 		if io == 0 || len(other) > 0 || sig == "" {
+			return false, sig
+		}
+		// at least one goroutine of the bridge itself must be there and parked
+		if bs, bio, _ := c02Tagged(tags[:2]); bs == "" || bio == 0 {
 			return false, sig
 		}
 		if i > 0 && sig != prev {
@@ -624,6 +654,9 @@ func c02Parked(b *Bridge) (bool, string) {
 		}
 		prev = sig
 		time.Sleep(100 * time.Millisecond)
+	}
+	if progress() != p0 {
+		return false, prev
 	}
 	return true, prev
 }
@@ -640,6 +673,7 @@ const (
 type c02Outcome struct {
 	complete bool
 	watchdog bool
+	stalled  bool
 }
 
 func c02Other(s, t *c02End, name string) *c02End {
@@ -683,7 +717,7 @@ func c02RunCase(run *vk.Run, nw *c02Net, cfg c02Cfg) (out c02Outcome) {
 	cr := rand.New(rand.NewSource(cfg.ChunkSeed))
 	mk := func(name string, cli net.Conn, srv *c02Conn, send, expect []byte, class string, rbuf int) *c02End {
 		return &c02End{name: name, cli: cli, srv: srv, send: send, expect: expect, chunks: c02Chunks(cr, class, len(send)),
-			rbuf: rbuf, yield: cfg.Yield, wDone: make(chan struct{}), rDone: make(chan struct{}), gotAll: make(chan struct{}), wStart: make(chan struct{})}
+			rbuf: rbuf, yield: cfg.Yield, wDone: make(chan struct{}), rDone: make(chan struct{}), gotAll: make(chan struct{}), wStart: make(chan struct{}), badCh: make(chan struct{})}
 	}
 	S := mk("src", cliS, srvS, s2t, t2s, cfg.ChunkS, cfg.RBufS)
 	T := mk("tgt", cliT, srvT, t2s, s2t, cfg.ChunkT, cfg.RBufT)
@@ -808,29 +842,62 @@ func c02RunCase(run *vk.Run, nw *c02Net, cfg c02Cfg) (out c02Outcome) {
 	// ---- phase A: until the transfer completed or the bridge finished ----
 	bridgeDone := false
 	selfTerminated := false
+	corrupt := false
 	wd := time.NewTimer(c02WatchTransfer)
-	select {
-	case <-complete:
-		out.complete = S.wErr == nil && T.wErr == nil
-	case <-startDone:
-		bridgeDone = true
-	case <-wd.C:
-		parked, sig := c02Parked(bridge)
-		if parked && !induced.Load() && !faultFired() {
-			// nobody closed, every bridge goroutine is parked in a transport read, yet
-			// bytes handed to the tunnel have not come out: they never will
-			run.Violation("C02:stall|limit="+lc, detail(map[string]any{"bridge_goroutines": sig,
-				"what": "bridge parked for ever with undelivered bytes although neither end closed"}))
-		} else if parked {
-			run.Violation("C02:closure|bridge-hang|script="+cfg.Script, detail(map[string]any{"bridge_goroutines": sig,
-				"what": "an end closed/failed but the bridge stays parked: the tunnel is never torn down"}))
-		} else {
+	poll := time.NewTicker(time.Second)
+	writersDone := func() bool {
+		for _, ch := range []chan struct{}{S.wDone, T.wDone} {
+			select {
+			case <-ch:
+			default:
+				return false
+			}
+		}
+		return S.wErr == nil && T.wErr == nil
+	}
+phaseA:
+	for {
+		select {
+		case <-complete:
+			out.complete = S.wErr == nil && T.wErr == nil
+			break phaseA
+		case <-startDone:
+			bridgeDone = true
+			break phaseA
+		case <-S.badCh:
+			corrupt = true
+			break phaseA
+		case <-T.badCh:
+			corrupt = true
+			break phaseA
+		case <-poll.C:
+			// logical stall verdict: both clients have handed over all their bytes, the
+			// bridge and both client readers are parked in transport reads, nothing moves
+			if induced.Load() || faultFired() {
+				if parked, sig := c02Parked(bridge); parked {
+					run.Violation("C02:closure|bridge-hang|script="+cfg.Script, detail(map[string]any{"bridge_goroutines": sig,
+						"what": "an end closed/failed but the bridge stays parked in transport reads: the tunnel is never torn down"}))
+					out.stalled = true
+					break phaseA
+				}
+			} else if writersDone() {
+				if parked, sig := c02Parked(bridge, S, T); parked {
+					run.Violation("C02:stall|limit="+lc, detail(map[string]any{"goroutines": sig,
+						"what": "all bytes were handed to the tunnel, neither end closed, the bridge and both readers are parked in transport reads, yet bytes are undelivered: they never will be"}))
+					out.stalled = true
+					break phaseA
+				}
+			}
+		case <-wd.C:
 			run.Count("watchdog", 1)
+			sig, _, _ := c02Tagged([]string{c02BridgeTag(bridge), c02StartTag(bridge)})
 			run.Observe("watchdog_last", detail(map[string]any{"phase": "transfer", "bridge_goroutines": sig}))
 			out.watchdog = true
+			break phaseA
 		}
 	}
 	wd.Stop()
+	poll.Stop()
 
 	if bridgeDone && !out.complete {
 		select {
@@ -854,28 +921,37 @@ func c02RunCase(run *vk.Run, nw *c02Net, cfg c02Cfg) (out c02Outcome) {
 
 	// ---- phase B: closure ----
 	initiator := "" // the end whose close/failure ends the tunnel ("" = none/both must see it)
-	if !out.watchdog {
+	if !out.watchdog && !out.stalled && !corrupt {
 		if !bridgeDone {
 			// orderly end: one client closes after everything was exchanged
 			initiator = cfg.Closer
 			induced.Store(true)
 			c02Pick(S, T, cfg.Closer).cli.Close()
 			wd2 := time.NewTimer(c02WatchClose)
-			select {
-			case <-startDone:
-				bridgeDone = true
-			case <-wd2.C:
-				parked, sig := c02Parked(bridge)
-				if parked {
-					run.Violation("C02:closure|bridge-hang|script=orderly", detail(map[string]any{"bridge_goroutines": sig, "closed_end": cfg.Closer,
-						"what": "one end closed after a complete exchange but the bridge stays parked: the other end never observes closure"}))
-				} else {
+			poll2 := time.NewTicker(time.Second)
+		phaseB:
+			for {
+				select {
+				case <-startDone:
+					bridgeDone = true
+					break phaseB
+				case <-poll2.C:
+					if parked, sig := c02Parked(bridge); parked {
+						run.Violation("C02:closure|bridge-hang|script=orderly", detail(map[string]any{"bridge_goroutines": sig, "closed_end": cfg.Closer,
+							"what": "one end closed after a complete exchange but the bridge stays parked in transport reads: the other end never observes closure"}))
+						out.stalled = true
+						break phaseB
+					}
+				case <-wd2.C:
 					run.Count("watchdog", 1)
+					sig, _, _ := c02Tagged([]string{c02BridgeTag(bridge), c02StartTag(bridge)})
 					run.Observe("watchdog_last", detail(map[string]any{"phase": "close", "bridge_goroutines": sig}))
 					out.watchdog = true
+					break phaseB
 				}
 			}
 			wd2.Stop()
+			poll2.Stop()
 		} else if !selfTerminated {
 			switch cfg.Script {
 			case "close", "err-read", "err-write":
@@ -1207,8 +1283,30 @@ func TestVerifC02EarlyEnd(t *testing.T) {
 					return map[string]any{"case": c, "tgt_got": T.got.Load(), "srv_tgt_closes": srvT.closes.Load(), "srv_src_closes": srvS.closes.Load()}
 				}
 				wd := time.NewTimer(c02WatchClose)
-				select {
-				case <-startDone:
+				poll := time.NewTicker(time.Second)
+				finished := false
+			wait:
+				for {
+					select {
+					case <-startDone:
+						finished = true
+						break wait
+					case <-poll.C:
+						if parked, sig := c02Parked(b); parked {
+							m := det()
+							m["bridge_goroutines"] = sig
+							run.Violation("C02:closure|bridge-hang|script=source-ended-before-attach", m)
+							break wait
+						}
+					case <-wd.C:
+						run.Count("watchdog", 1)
+						undecided.Add(1)
+						break wait
+					}
+				}
+				wd.Stop()
+				poll.Stop()
+				if finished {
 					run.Count("closure_checks", 1)
 					if srvT.closes.Load() == 0 {
 						run.Violation("C02:closure|peer-conn-left-open|script=source-ended-before-attach", det())
@@ -1223,17 +1321,7 @@ func TestVerifC02EarlyEnd(t *testing.T) {
 						}
 						wd2.Stop()
 					}
-				case <-wd.C:
-					if parked, sig := c02Parked(b); parked {
-						m := det()
-						m["bridge_goroutines"] = sig
-						run.Violation("C02:closure|bridge-hang|script=source-ended-before-attach", m)
-					} else {
-						run.Count("watchdog", 1)
-						undecided.Add(1)
-					}
 				}
-				wd.Stop()
 				if m := T.bad.Load(); m != nil {
 					d := det()
 					d["mismatch"] = m
